@@ -1,13 +1,16 @@
-(* C01 proofs, part 4: the value clause without codec hypotheses on the argument list and the results.
+(* C01 proofs, part 4: the value clause without codec hypotheses.
    The struct-level codec round trip of C03 (Codec/RoundTripProofs.v, rt_all: mutual induction over vectors, bytes,
-   maps, arrays, nested structs, for every fuel) is applied to the argument list seen as a struct schema with
-   required members at tags 1..n (what the generator does with its dummy members):
-     - the dispatcher's decoder, run over the proxy's encoding of all arguments, yields the in arguments (normalised),
-       for every signature whose out parameters follow its in parameters ([ins_first]; for interleaved signatures
-       the encoded out arguments would have to be shown skippable - not done, see design/C01.md);
+   maps, arrays, nested structs, for every fuel, with unknown fields in front of every member) is applied to the
+   argument list seen as a struct schema with required members at tags 1..n (what the generator does with its dummy
+   members):
+     - the dispatcher's decoder, run over the proxy's encoding of all arguments, yields the in arguments (normalised):
+       [args_decode_full] for signatures whose out parameters follow the in parameters (no skipping involved),
+       [args_decode_any] for every signature - the encoded out arguments between the in arguments are unknown fields,
+       well formed by Rpc/ValueWire.v ([interleave]);
      - the proxy's decoder, run over the dispatcher's encoding of return value and out arguments into fresh out
        variables ([outs_fresh]: Go zero values; a variable holding earlier content is the known finding), yields them
-       (normalised).
+       (normalised);
+     - both packets survive packet codec, frame and receive loop (C03 on the regenerated packet schemas, C07).
    [norm] (Codec/RoundTrip.v) is the identity except that an optional scalar struct member equal (==) to its declared
    default comes back as the default (only -0.0 vs +0.0 differ). *)
 From Coq Require Import List NArith ZArith Bool Arith Lia.
